@@ -72,6 +72,9 @@ def run(ctx):
         for sys, dom, proj in itertools.product((0, 1), repeat=3):
             for spelling in ('system', 'system_scope'):
                 for enf in (True, False):
+                    # one long-lived enforcer per configuration: the rows below are a history on it
+                    # (do_raise off before do_raise on, different bodies set with set_rules)
+                    live = {}
                     for doraise in (0, 1):
                         for allow in (0, 1):
                             for override in (0, 1):
@@ -98,9 +101,19 @@ def run(ctx):
                                             call['tree'] = body
                                         if doraise and rng.random() < 0.3:
                                             call.update({'custom': 1, 'xargs': [1, 'x'], 'xkw': {'k': 2}})
+                                        enforcer = None
+                                        if rng.random() < 0.8:
+                                            from oslo_policy import policy as _pol
+                                            lk = (by,)
+                                            if lk not in live:
+                                                live[lk] = ev.make_enforcer({'p:x': ev.rule_text(body)}, ('opt', None),
+                                                                            [(n, list(sc), 'role:test') for n, sc in registered], enf)
+                                            enforcer = live[lk]
+                                            enforcer.set_rules(_pol.Rules.from_dict({'p:x': ev.rule_text(body)}, enforcer.default_rule), use_conf=False)
                                         c = ec.enforce_case(rules, call, {}, abstract, dflt=('opt', None), registered=registered,
                                                             enforce_scope=enf, check_scopes=list(scopes) if by == 'check' else (),
-                                                            want='c08', creds_obj=obj, extra={'_rep': rep, '_scopes': list(scopes)})
+                                                            want='c08', creds_obj=obj, extra={'_rep': rep, '_scopes': list(scopes)},
+                                                            enforcer=enforcer)
                                         cases.append(c)
     bad = ec.judge(ctx, cases)
     for c in bad:
